@@ -133,7 +133,7 @@ class Checker:
 
     def __init__(self):
         self.found = []
-        self.P = self.D = self.M = 0
+        self.P = self.D = self.M = self.X = 0
 
     def p(self, ok, prop, clause, msg):
         self.P += 1
@@ -149,6 +149,12 @@ class Checker:
         self.M += 1
         if not ok:
             self.found.append((prop, clause, msg))
+
+    def x(self, ok, clause, msg):
+        """a fact the specification predicts but no listed property states: a divergence is a SPEC-NOTE, never a verdict"""
+        self.X += 1
+        if not ok:
+            self.found.append(("BEYOND", clause, msg))
 
 
 def has_gap(pred, energies, k):
